@@ -15,7 +15,7 @@ pub const FLOORS: &[&str] = &[
     "paused_on_directive_break", "paused_on_runtime_break", "paused_at_halt", "paused_outside_user_space",
     "paused_at_ffff", "ended_by_quit", "ended_by_eof", "end:returned", "end:exit_238", "end:exit_1",
     "malformed_command_in_script", "blank_command_in_script", "feature:loop", "feature:self_modify", "feature:nested_call",
-    "output:minimal", "output:decorated", "long_label", "break_table_with_long_label", "halt_written_at_run_time",
+    "output:minimal", "output:decorated", "long_label", "break_table_with_long_label", "halt_written_at_run_time", "program_without_words",
 ];
 
 const FUEL: u64 = 15_000;
@@ -202,6 +202,20 @@ fn one_case(seed: u64, i: u64) -> CaseOut {
         built.input.clear();
         out.class("halt_written_at_run_time");
     }
+    if i % 37 == 9 {
+        // a source that assembles to no word at all (comments, `.orig`, `.break`, `.end` only): running it is
+        // the loader's HALT and nothing else, with or without the debugger
+        let mut items: Vec<Item> = match o.origin { Some(v) => vec![Item::Orig(v)], None => vec![] };
+        if (i / 37) % 3 == 1 {
+            items.push(Item::Break);
+        }
+        if (i / 37) % 2 == 0 {
+            items.push(Item::End);
+        }
+        built.program = Program { items };
+        built.input.clear();
+        out.class("program_without_words");
+    }
     // the comparison is about program output and machine state, not debugger text: a third of the
     // sessions use the decorated output mode, whose tables and listings are separate code paths
     let minimal = !rng.chance(1, 3);
@@ -277,6 +291,16 @@ fn one_case(seed: u64, i: u64) -> CaseOut {
     }
     let sess = match run_session(&text, stack, &script, &built.input, 6 * FUEL, false) {
         Ok(s) => s,
+        Err(crate::exec::AsmOutcome::Rejected(d)) => {
+            // the plain run of the same text was set up a moment ago: a program that runs can be debugged
+            out.violate(
+                "C09/refused-under-the-debugger",
+                i,
+                format!("the program runs plainly, but no session could be started on it: {}", d.message),
+                J::obj(vec![("source", J::s(&text)), ("stack_feature", J::B(stack))]),
+            );
+            return out;
+        }
         Err(o) => {
             out.inconclusive = Some(format!("not assembled ({})", o.class()));
             return out;
